@@ -1252,6 +1252,319 @@ def r11_undecodable_path_replaced(run):
                       where=where, witness=['stored: %s' % ascii(v), 'by %s' % short(node), '%s.search(...) finds nothing' % CHARS_PATTERN], runtime_witness=rw)
 
 
+# ---------------------------------------------------------------------------
+# R13 the range unit is the WHOLE text before the first '=' (added after seeded
+# change s9-c16-1: a fast path `if value.startswith('bytes'): return 'bytes'`)
+# ---------------------------------------------------------------------------
+# StaticRoute.__call__ honours a Range header only when `req.range_unit` is
+# 'bytes'; "other units" must be served the complete file.  So every value
+# Request.range_unit returns is either
+#   * the unit read off the header: element 0 of `<value>.partition('=')` /
+#     `<value>.split('=' ...)[0]`, handed out unchanged, or
+#   * a constant C on a branch where a test has established that the header's
+#     unit IS C: `<value>.startswith(K)` with every alternative of K carrying the
+#     separator (`K = C + '=' + ...`), `<value> == K` likewise, `<unit> == C`.
+# A constant returned behind a partial-text test - a prefix test without the
+# separator (`startswith('bytes')`), a substring test (`'bytes' in value`), a
+# prefix test on the unit - or behind no test of the header at all reports C for
+# units that merely begin with / contain C: a violation.  `rpartition` /
+# `rsplit` read the text before the LAST '='.  Anything else: unknown idiom.
+
+REQUEST = 'falcon.request.Request'
+_RANGE_HEADER = ('range', 'http_range')
+_R13_RW = ("Range: bytesx=1-3 (a unit that merely begins with 'bytes'): the static route answers 206 with a slice (or 416) instead of 200 with the whole file")
+
+
+class _RangeUnit:
+    def __init__(self, run, f: Func):
+        self.run, self.p, self.f = run, run.project, f
+        self.cfg = cfg_of(f, self.p)
+        run.use_cfg(self.cfg)
+        self.defs: Dict[str, list] = {}
+        for n in walk_no_nested(f.node):
+            if isinstance(n, ast.Assign):
+                for t in n.targets:
+                    self._bind(t, n.value)
+            elif isinstance(n, ast.AnnAssign) and n.value is not None:
+                self._bind(n.target, n.value)
+            elif isinstance(n, ast.NamedExpr):
+                self._bind(n.target, n.value)
+            elif isinstance(n, (ast.AugAssign, ast.For, ast.With)):
+                for x in ast.walk(n.target if not isinstance(n, ast.With) else ast.Tuple(elts=[i.optional_vars for i in n.items if i.optional_vars is not None])):
+                    if isinstance(x, ast.Name):
+                        self.defs.setdefault(x.id, []).append(('other', n))
+
+    def _bind(self, t, value):
+        if isinstance(t, ast.Name):
+            self.defs.setdefault(t.id, []).append(('assign', value))
+        elif isinstance(t, (ast.Tuple, ast.List)):
+            for i, e in enumerate(t.elts):
+                for x in ast.walk(e):
+                    if isinstance(x, ast.Name):
+                        self.defs.setdefault(x.id, []).append(('unpack', i, value, len(t.elts), isinstance(e, ast.Name)))
+
+    # ---- roles
+    def is_value(self, e, depth=0) -> bool:
+        """`e` is the raw Range header value."""
+        if depth > 4:
+            return False
+        if isinstance(e, ast.Call) and isinstance(e.func, ast.Attribute) and e.func.attr in ('get_header', 'get') and e.args \
+                and isinstance(e.args[0], ast.Constant) and isinstance(e.args[0].value, str) and e.args[0].value.lower() in _RANGE_HEADER:
+            return True
+        if isinstance(e, ast.Subscript) and isinstance(e.slice, ast.Constant) and isinstance(e.slice.value, str) and e.slice.value.lower() in _RANGE_HEADER:
+            return True
+        if isinstance(e, ast.Name) and e.id not in self.f.params():
+            ds = self.defs.get(e.id, [])
+            return bool(ds) and all(d[0] == 'assign' and self.is_value(d[1], depth + 1) for d in ds)
+        return False
+
+    def _split(self, e):
+        """(method, separator) when `e` is `<value>.partition / split / rpartition / rsplit(<const> ...)`."""
+        if isinstance(e, ast.Call) and isinstance(e.func, ast.Attribute) and e.func.attr in ('partition', 'split', 'rpartition', 'rsplit') \
+                and e.args and self.is_value(e.func.value):
+            sep = self.p.fold(self.f.module, e.args[0], func=self.f)
+            if not isinstance(sep, str):
+                raise UnknownIdiom('%s: separator of `%s` is not a constant' % (self.f.qual, short(e)))
+            return e.func.attr, sep
+        return None
+
+    def unit_kind(self, e, depth=0) -> Optional[str]:
+        """'first' = the text before the first '=', 'last' = before the last '=' (rpartition / rsplit), None = something else."""
+        if depth > 4:
+            return None
+        if isinstance(e, ast.Subscript) and isinstance(e.slice, ast.Constant) and e.slice.value == 0:
+            sp = self._split(e.value)
+            if sp is not None:
+                return self._kind(sp, e)
+        if isinstance(e, ast.Name) and e.id not in self.f.params():
+            ds = self.defs.get(e.id, [])
+            kinds = set()
+            for d in ds:
+                if d[0] == 'assign':
+                    kinds.add(self.unit_kind(d[1], depth + 1))
+                elif d[0] == 'unpack' and d[1] == 0 and d[4]:
+                    sp = self._split(d[2])
+                    kinds.add(self._kind(sp, d[2]) if sp is not None else None)
+                else:
+                    kinds.add(None)
+            if len(kinds) == 1:
+                return kinds.pop()
+        return None
+
+    def _kind(self, sp, where):
+        meth, sep = sp
+        if sep != '=':
+            raise UnknownIdiom('%s: `%s` splits the Range header on %r, not on "="' % (self.f.qual, short(where), sep))
+        return 'first' if meth in ('partition', 'split') else 'last'
+
+    def mentions_header(self, e) -> bool:
+        return any(self.is_value(x) or self.unit_kind(x) is not None for x in ast.walk(e) if isinstance(x, (ast.Name, ast.Call, ast.Subscript)))
+
+    # ---- tests in front of a constant return
+    def _alts(self, k):
+        v = self.p.fold(self.f.module, k, func=self.f)
+        if isinstance(v, str):
+            return [v]
+        if isinstance(v, (tuple, list)) and v and all(isinstance(x, str) for x in v):
+            return list(v)
+        return None
+
+    def classify(self, atom, truth, const):
+        """What does `atom` being `truth` say about "the unit is `const`"?  'proves' | 'partial' | None (says nothing) | 'unknown'."""
+        a = atom
+        if isinstance(a, ast.Call) and isinstance(a.func, ast.Attribute) and a.func.attr in ('startswith', 'endswith') and len(a.args) >= 1:
+            recv = a.func.value
+            on_value, on_unit = self.is_value(recv), self.unit_kind(recv) is not None
+            if not (on_value or on_unit):
+                return None
+            alts = self._alts(a.args[0])
+            if alts is None or len(a.args) > 1 or a.func.attr == 'endswith':
+                return 'unknown'
+            if not truth:
+                return None
+            if on_value and all('=' in k and k.partition('=')[0] == const for k in alts):
+                return 'proves'
+            return 'partial'
+        if isinstance(a, ast.Compare) and len(a.ops) == 1:
+            l, r, op = a.left, a.comparators[0], a.ops[0]
+            if isinstance(op, (ast.Is, ast.IsNot)):
+                return None                 # presence of the header
+            for x, y in ((l, r), (r, l)):
+                k = self._alts(y) if isinstance(op, (ast.Eq, ast.NotEq)) else None
+                if isinstance(op, (ast.Eq, ast.NotEq)) and k is not None and len(k) == 1 and (self.is_value(x) or self.unit_kind(x) is not None):
+                    if truth != isinstance(op, ast.Eq):
+                        return None
+                    if self.unit_kind(x) == 'first':
+                        return 'proves' if k[0] == const else 'unknown'
+                    if self.is_value(x):
+                        return 'proves' if '=' in k[0] and k[0].partition('=')[0] == const else 'unknown'
+                    return 'unknown'
+            if isinstance(op, (ast.In, ast.NotIn)) and self.is_value(r):
+                k = self._alts(l)
+                if k is None or len(k) != 1:
+                    return 'unknown'
+                if truth != isinstance(op, ast.In):
+                    return None             # absence of a text: says nothing about the unit
+                if k[0] == '=':
+                    return None             # the separator is present: says nothing about which unit
+                return 'partial'
+            if self.mentions_header(a):
+                return 'unknown'
+            return None
+        if isinstance(a, (ast.Name, ast.Call, ast.Subscript, ast.Attribute)):
+            if self.is_value(a) or self.unit_kind(a) is not None:
+                return None                 # truthiness: non-empty
+            if self.mentions_header(a):
+                return 'unknown'
+        return None
+
+    def atoms(self, e):
+        e2 = e
+        if isinstance(e2, ast.UnaryOp) and isinstance(e2.op, ast.Not):
+            yield from self.atoms(e2.operand)
+        elif isinstance(e2, ast.BoolOp):
+            for v in e2.values:
+                yield from self.atoms(v)
+        else:
+            yield e2
+
+    def const_return(self, r: ast.Return, const: str):
+        cfg = self.cfg
+        nids = cfg.nodes_for(r)
+        if not nids:
+            raise UnknownIdiom('%s: `%s` not found in the control-flow graph' % (self.f.qual, short(r)))
+        verdicts, unknown, seen_tests = [], [], []
+        for t in cfg.live_nodes():
+            if t.kind != 'test':
+                continue
+            for (b, lab) in cfg.succ[t.id]:
+                if lab not in ('T', 'F'):
+                    continue
+                if not all(flow.dominated_by_edge(cfg, nid, (t.id, b, lab)) for nid in nids):
+                    continue
+                for a in self.atoms(t.ast):
+                    tr = implied(t.ast, lab == 'T', lambda x, a=a: x is a)
+                    if tr is None:
+                        if self.mentions_header(a) and self.classify(a, True, const) is not None:
+                            unknown.append(a)       # a header test whose outcome on this branch is not determined
+                        continue
+                    c = self.classify(a, tr, const)
+                    if c == 'unknown':
+                        unknown.append(a)
+                    elif c is not None:
+                        verdicts.append((c, a))
+                        seen_tests.append(a)
+        what = ("Request.range_unit reports the constant unit %r only where the header's unit - the whole text before the first '=' - is known to be %r "
+                "(a test that includes the separator, e.g. startswith(%r)); the static route slices the file only for that unit" % (const, const, const + '='))
+        if any(c == 'proves' for c, _a in verdicts):
+            self.run.ok(what, self.f.loc(r), short(r))
+            return
+        partial = [a for c, a in verdicts if c == 'partial']
+        if partial:
+            self.run.fail(what + ': the only test in front of it is a partial-text test', self.f, partial[0], where=self.f.loc(partial[0]),
+                          witness=['`%s` is reached when `%s`' % (short(r), short(partial[0]))], runtime_witness=_R13_RW)
+            return
+        if unknown:
+            raise UnknownIdiom('%s: `%s` is returned behind a test of the Range header the rule does not read: `%s`' % (self.f.qual, short(r), short(unknown[0])))
+        self.run.fail(what + ': no test of the header value stands in front of it', self.f, r, where=self.f.loc(r), runtime_witness=_R13_RW)
+
+    def analyse(self):
+        f = self.f
+        rets = [n for n in walk_no_nested(f.node) if isinstance(n, ast.Return)]
+        n_unit = 0
+        for r in rets:
+            vals = [r.value]
+            if isinstance(r.value, ast.IfExp):
+                raise UnknownIdiom('%s: conditional expression in `%s`' % (f.qual, short(r)))
+            for v in vals:
+                if v is None or (isinstance(v, ast.Constant) and v.value is None):
+                    continue
+                cv = self.p.fold(f.module, v, func=f) if not (isinstance(v, ast.Name) and v.id in self.defs) else UNKNOWN
+                if isinstance(cv, str):
+                    self.const_return(r, cv)
+                    continue
+                k = self.unit_kind(v)
+                what = "Request.range_unit is the whole text before the FIRST '=' of the Range header value (partition / split on '=', element 0, unchanged)"
+                if k == 'first':
+                    n_unit += 1
+                    self.run.ok(what, f.loc(r), short(r))
+                elif k == 'last':
+                    n_unit += 1
+                    self.run.fail(what, f, r, where=f.loc(r), runtime_witness="Range: bytes=0-1=2 reports the unit 'bytes=0-1'")
+                else:
+                    raise UnknownIdiom('%s: `%s` is not recognisably the text before the first "=" of the Range header' % (f.qual, short(r)))
+        if n_unit == 0:
+            raise AnchorError('%s: no return of the unit read off the header' % f.qual)
+
+
+def r13_range_unit_whole(run):
+    """Request.range_unit is the whole text before the first '=' of the Range header; a constant shortcut is guarded by a test
+    that includes the separator.  Runtime witness: `Range: bytesx=1-3` must be ignored by the static route (200, whole file)."""
+    p = run.project
+    done = {}
+    for tag, cq in (('WSGI', REQUEST), ('ASGI', 'falcon.asgi.request.Request')):
+        g = p.lookup_method(cq, 'range_unit')
+        if g is None:
+            raise AnchorError('%s.range_unit not found' % cq)
+        if g.qual in done:
+            run.ok('%s Request.range_unit is inherited unchanged from the %s flavour' % (tag, done[g.qual]), g.loc(), '%s.range_unit' % cq)
+            continue
+        done[g.qual] = tag
+        run.use(g)
+        _RangeUnit(run, g).analyse()
+    # the consumer: the static route honours the Range header only for the unit 'bytes', compared whole
+    c = p.func(CALL)
+    run.use(c)
+    what = "StaticRoute.__call__ honours the Range header only when the unit equals 'bytes' (whole-text comparison)"
+    binds = {}
+    for n in walk_no_nested(c.node):
+        if isinstance(n, ast.Assign) and len(n.targets) == 1 and isinstance(n.targets[0], ast.Name):
+            binds.setdefault(n.targets[0].id, []).append(n.value)
+
+    def is_unit(e):
+        if isinstance(e, ast.Attribute) and e.attr == 'range_unit':
+            return True
+        return isinstance(e, ast.Name) and e.id not in c.params() and bool(binds.get(e.id)) and all(is_unit(v) for v in binds[e.id])
+
+    parents = {}
+    for n in walk_no_nested(c.node):
+        for ch in ast.iter_child_nodes(n):
+            parents[id(ch)] = n
+    uses = [n for n in walk_no_nested(c.node) if is_unit(n) and isinstance(getattr(n, 'ctx', None), ast.Load)]
+    reads_range = [n for n in walk_no_nested(c.node) if isinstance(n, ast.Attribute) and n.attr == 'range' and isinstance(n.ctx, ast.Load)]
+    if not reads_range:
+        raise AnchorError('%s: no read of <req>.range' % CALL)
+    n_tests = 0
+    for u in uses:
+        par = parents.get(id(u))
+        if isinstance(par, ast.Assign) and u is par.value:
+            continue                    # alias, followed by is_unit
+        if isinstance(par, ast.Compare) and len(par.ops) == 1:
+            other = par.comparators[0] if par.left is u else par.left
+            k = p.fold(c.module, other, func=c)
+            op = par.ops[0]
+            if isinstance(op, (ast.Eq, ast.NotEq)) and isinstance(k, str):
+                n_tests += 1
+                run.check(k == 'bytes', what, c, par, where=c.loc(par), runtime_witness="Range: items=0-1 / Range: byte=0-1 is answered with a slice of the file")
+                continue
+            if isinstance(op, (ast.In, ast.NotIn)) and par.left is u and isinstance(k, (tuple, list, frozenset, set)) and k:
+                n_tests += 1
+                run.check(all(x == 'bytes' for x in k), what, c, par, where=c.loc(par), runtime_witness='Range: items=0-1 is answered with a slice of the file')
+                continue
+            if isinstance(op, (ast.In, ast.NotIn)) and par.comparators[0] is u and isinstance(k, str):
+                n_tests += 1
+                run.fail(what + ': substring test', c, par, where=c.loc(par), runtime_witness=_R13_RW)
+                continue
+        if isinstance(par, ast.Attribute) and par.attr in ('startswith', 'endswith') and isinstance(parents.get(id(par)), ast.Call):
+            n_tests += 1
+            run.fail(what + ': partial-text test', c, parents[id(par)], where=c.loc(par), runtime_witness=_R13_RW)
+            continue
+        raise UnknownIdiom('%s: the range unit is used in `%s`, which the rule does not read' % (CALL, short(par) if par is not None else short(u)))
+    if n_tests == 0:
+        run.fail(what + ': the unit is never consulted although <req>.range is read', c, reads_range[0], where=c.loc(reads_range[0]),
+                 runtime_witness='Range: items=0-1 is answered with a slice of the file')
+
+
 def check(run):
     run.assume('POSIX path semantics: os.path.sep == "/"; os.path.normpath leaves ".." only as leading components; '
                'os.path.join(D, x) == D + "/" + x for relative x (trusted base of the containment lemma)')
@@ -1281,3 +1594,8 @@ def check(run):
     run.assume('ASGI: scope["path"] is decoded by the server (ASGI spec: percent-decoded, UTF-8 with undecodable bytes replaced)')
     run.rule('R11', r11_undecodable_path_replaced, 'undecodable request-path bytes reach the static route as U+FFFD, which its disallowed-characters test '
              'rejects (WSGI constructor evaluated on sample PATH_INFO values)', floor=8)
+    # the 206 / 416 / 400 decisions of the static route start from the (first, last) pair Request.range hands out: which specs are accepted, with which
+    # offsets, is the Range decision table (shared with C09 R6)
+    run.rule('R12', _c09.r6_range, 'Range decision table: first-last / first- / -suffix offsets, a one-byte range is valid (shared with C09 R6)', floor=10)
+    run.rule('R13', r13_range_unit_whole, "Request.range_unit is the whole text before the first '=' (a constant shortcut only behind a test that includes the "
+             "separator) and the static route compares it whole with 'bytes'", floor=3)
